@@ -35,9 +35,14 @@ ML_BODIES = ['', 'a', "it's", 'a\\nb', 'line1\nline2', '@0@', 'v@x@', '\\x41 raw
 
 
 class Gen:
-    def __init__(self, rnd: random.Random, err_rate: float = 0.05):
+    def __init__(self, rnd: random.Random, err_rate: float = 0.05, subst: float = 0.0, newmeth: float = 0.0):
         self.r = rnd
         self.err = err_rate
+        # rate of array.flatten / array.slice / dict.values / str.splitlines (off by default, like subst)
+        self.newmeth = newmeth
+        # rate of the "values that look like placeholders" class (off by default: the random stream of the other users
+        # of this generator is unchanged)
+        self.subst = subst
         self.vars: T.Dict[str, str] = {}
         self.loop_depth = 0
         self.in_ternary = 0
@@ -53,8 +58,86 @@ class Gen:
             return self.r.choice([t for t in TYPES if t != ty])
         return ty
 
+    # -- text that looks like a placeholder of an f-string / .format() for names that are (or may come) in scope
+    PH_SHAPES = ['@%s@', 'see @%s@', '@@%s@@', '@%s', '%s@', '%s', '@%s@@%t@', '@%t@ and @%s@', '@', '@@', '@0@', '@1@', '@1@@0@', '0', '1@']
+    F_SHAPES = ['@%s@ / @%t@', '@@%s@@ = @%t@', '@%s@@%t@', '@%s@@@%t@', '@%s@%t@', '@%t@ @%s@ @%t@', '@%s@@%t@@%u@', '@@%s@@@%t@@',
+                'x@%s@@%t@y', '@%s@@0@@%t@', '@%u@@%s@ @%t@@%u@', '@%s@@%s@']
+    N_SHAPES = ['@0@@1@', '@@0@@ @1@', '@1@ @0@ @1@', '@0@@@1@', '@0@1@', '@0@@a@', '@@0@@1@', '@1@@0@@2@', '@0@ / @1@', '@00@@1@']
+
+    def ph_names(self, kinds: T.Tuple[str, ...] = ('str', 'int', 'bool')) -> T.List[str]:
+        c = [n for n, t in self.vars.items() if t in kinds]
+        return c or self.names[:3]
+
+    def ph_fill(self, shape: str, names: T.Optional[T.List[str]] = None) -> str:
+        names = names or self.ph_names()
+        picks = [self.r.choice(names) for _ in range(3)]
+        if len(set(names)) >= 2:
+            while picks[1] == picks[0]:
+                picks[1] = self.r.choice(names)
+        return shape.replace('%s', picks[0]).replace('%t', picks[1]).replace('%u', picks[2])
+
+    def ph_strlit(self) -> T.List[Tok]:
+        return [string(self.ph_fill(self.r.choice(self.PH_SHAPES)), 's' if self.r.random() < 0.85 else 'ms')]
+
+    def fstring_multi(self) -> T.List[Tok]:
+        body = self.ph_fill(self.r.choice(self.F_SHAPES))
+        if self.r.random() < 0.06:
+            body += '@nope@'
+        return [string(body, self.r.choice(['fs', 'fs', 'mfs']))]
+
+    def format_multi(self, d: int) -> T.List[Tok]:
+        r = self.r
+        fmt = r.choice(self.N_SHAPES)
+        n = 3 if '@2@' in fmt and r.random() < 0.9 else r.choice([2, 2, 2, 2, 1])
+        args = []
+        for _ in range(n):
+            c = r.random()
+            v = self.pick_var('str')
+            if c < 0.4 and v is not None:
+                args.append([ident(v)])
+            elif c < 0.8:
+                args.append(self.ph_strlit())
+            else:
+                args.append(self.expr(r.choice(['int', 'str', 'bool']), d))
+        return self.method(self.strlit(fmt) if r.random() < 0.8 else self.fstring_multi(), 'format', args, atom=True)
+
+    def subst_cluster(self) -> T.List[Tok]:
+        """values that name each other, used in one literal with several identifiers, in .format() arguments, and the
+        results substituted once more (statements separated by eol)"""
+        r = self.r
+        n1, n2, n3 = r.sample(self.names, 3)
+        out: T.List[Tok] = []
+
+        def assign(name: str, e: T.List[Tok], ty: str = 'str') -> None:
+            nonlocal out
+            if out:
+                out.append(S('eol'))
+            out += [ident(name), S('assign')] + e
+            self.vars[name] = ty
+        assign(n1, [string(self.ph_fill(r.choice(self.PH_SHAPES[:8]), [n2, n2, n3]))])
+        assign(n2, [string(self.ph_fill(r.choice(self.PH_SHAPES[:8]), [n1, n1, n3]))])
+        c = r.random()
+        if c < 0.4:
+            assign(n3, [string(self.ph_fill(r.choice(self.PH_SHAPES), [n1, n2]))])
+        elif c < 0.7:
+            assign(n3, [num(r.choice([0, 1, 7]))], 'int')
+        elif c < 0.85:
+            assign(n3, [S(r.choice(['true', 'false']))], 'bool')
+        elif n3 not in self.vars:
+            n3 = n1
+        trio = [n1, n2, n3]
+        res = r.sample([n for n in self.names if n not in trio], 3)
+        assign(res[0], [string(self.ph_fill(r.choice(self.F_SHAPES), trio), r.choice(['fs', 'fs', 'mfs']))])
+        fargs = [[ident(r.choice(trio))], [ident(r.choice(trio))] if r.random() < 0.7 else self.ph_strlit()]
+        assign(res[1], self.method(self.strlit(r.choice(self.N_SHAPES)), 'format', fargs, atom=True))
+        if r.random() < 0.7:
+            assign(res[2], [string(self.ph_fill(r.choice(self.F_SHAPES), [res[0], res[1], r.choice(trio)]), 'fs')])
+        return out
+
     def strlit(self, body: T.Optional[str] = None, plain_only: bool = False) -> T.List[Tok]:
         r = self.r
+        if body is None and self.subst and r.random() < self.subst * 0.5:
+            return self.ph_strlit()
         if body is None:
             if not plain_only and r.random() < 0.15:
                 return [string(r.choice(ML_BODIES), 'ms')]
@@ -220,6 +303,8 @@ class Gen:
 
     def e_str(self, d: int) -> T.List[Tok]:
         r = self.r
+        if self.subst and r.random() < self.subst:
+            return self.fstring_multi() if r.random() < 0.55 else self.format_multi(d)
         c = r.random()
         if c < 0.2:
             return self.binop('str', ['plus'], 'str', d)
@@ -274,8 +359,52 @@ class Gen:
             return self.call('get_variable', [self.strlit(r.choice(self.names)), self.strlit('fallback')])
         return self.ternary('str', d)
 
+    LINE_BODIES = ['', 'one', 'a\\nb', 'a\\nb\\n', 'a\\r\\nb', 'a\\rb\\n\\nc', '\\n', '\\n\\r\\n\\r', ' x \\n\\ty ', 'a\\n\\n', '\\r\\n', 'a b\\r']
+
+    def signed(self, n: int) -> T.List[Tok]:
+        return [num(n)] if n >= 0 else [S('dash'), num(-n)]
+
+    def nested_arr(self, depth: int = 0) -> T.List[Tok]:
+        r = self.r
+        out = [S('lbracket')]
+        for i in range(r.choice([0, 1, 2, 3])):
+            if i:
+                out.append(S('comma'))
+            if depth < 3 and r.random() < 0.4:
+                out += self.nested_arr(depth + 1)
+            else:
+                out += self.atom(r.choice(['int', 'str', 'bool', 'arr', 'dict']))
+        return out + [S('rbracket')]
+
+    def new_method(self, d: int) -> T.List[Tok]:
+        """array.flatten(), array.slice(), dict.values(), str.splitlines() (all array-valued)"""
+        r = self.r
+        c = r.random()
+        if c < 0.25:
+            return self.method(self.nested_arr() if r.random() < 0.6 else self.expr('arr', d), 'flatten', [] if r.random() < 0.97 else [self.atom('int')])
+        if c < 0.65:
+            obj = self.expr('arr', d) if r.random() < 0.5 else self.nested_arr(2)
+            k = r.random()
+            args = [] if k < 0.3 else [self.signed(r.choice([-5, -3, -2, -1, 0, 0, 1, 2, 3, 5, 40])) for _ in range(2 if k < 0.96 else r.choice([1, 3]))]
+            if r.random() < 0.03 and args:
+                args[0] = self.atom('str')
+            e = self.method(obj, 'slice', args)
+            if r.random() < 0.45:
+                # explicit bounds with a negative step are outside the reference; mostly avoided so that programs run on
+                st = r.choice([1, 2, 3, 2, 3, 0] if args and r.random() < 0.9 else [-1, -2, -3, 1, 2, 0])
+                kw = [ident('step' if r.random() < 0.98 else 'stride'), S('colon')] + self.signed(st)
+                e = e[:-1] + ([S('comma')] if e[-2]['t'] != 'lparen' and e[-2]['t'] != 'comma' else []) + kw + [S('rparen')]
+            return e
+        if c < 0.85:
+            return self.method(self.expr('dict', d), 'values', [])
+        if r.random() < 0.7:
+            return self.method(self.strlit(r.choice(self.LINE_BODIES)), 'splitlines', [], atom=True)
+        return self.method(self.expr('str', d), 'splitlines', [])
+
     def e_arr(self, d: int) -> T.List[Tok]:
         r = self.r
+        if self.newmeth and r.random() < self.newmeth:
+            return self.new_method(d)
         c = r.random()
         if c < 0.35:
             return self.binop('arr', ['plus'], r.choice(['arr', 'arr', 'int', 'str']), d)
@@ -313,6 +442,8 @@ class Gen:
 
     def stmt(self, depth: int) -> T.List[Tok]:
         r = self.r
+        if self.subst and r.random() < self.subst * 0.4:
+            return self.subst_cluster()
         c = r.random()
         if c < 0.45 or depth >= 3:
             ty = r.choice(TYPES)
@@ -396,8 +527,9 @@ class Gen:
         return self.expr(r.choice(TYPES))
 
 
-def program(rnd: random.Random, nstmts: T.Optional[int] = None, err_rate: T.Optional[float] = None) -> T.List[Tok]:
-    g = Gen(rnd, err_rate if err_rate is not None else rnd.choice([0.0, 0.0, 0.02, 0.05, 0.12]))
+def program(rnd: random.Random, nstmts: T.Optional[int] = None, err_rate: T.Optional[float] = None, subst: float = 0.0,
+            newmeth: float = 0.0) -> T.List[Tok]:
+    g = Gen(rnd, err_rate if err_rate is not None else rnd.choice([0.0, 0.0, 0.02, 0.05, 0.12]), subst=subst, newmeth=newmeth)
     n = nstmts if nstmts is not None else rnd.randint(2, 9)
     return g.block(0, n)
 
